@@ -603,7 +603,12 @@ class DirectPtychography(RNGMixin, AutoSerialize):
             abs_gamma = gamma.abs()
 
             if deconvolution_kernel == "ssb":
-                fourier_factor = fourier_factor / abs_gamma.clip(1e-8)
+                # |gamma| at float32 round-off level is an exact cancellation of the two
+                # sidebands, not signal: normalising it to unit magnitude would make the
+                # result depend on rounding (and hence on the batch size)
+                fourier_factor = torch.where(
+                    abs_gamma > 1e-6, fourier_factor / abs_gamma.clip(1e-8), 0.0
+                )
             else:
                 power = abs_gamma.square().sum(0)
 
